@@ -155,6 +155,14 @@ func K1op(rc *RC, files []string, floor int) {
 				}
 			}
 			d := firstDiff(m.text, ref.text)
+			// one member rewritten from the ground up (another statement skeleton and less than
+			// 70% of its lines in common with its siblings) is a restructuring this comparison
+			// cannot tell from an error: it abstains. A member that keeps the template and differs
+			// in a term, a guard or an inserted branch is reported.
+			if !sameSkeleton(m.text, ref.text) && lineSimilarity(m.text, ref.text) < 0.7 {
+				rc.S.Undec("K1op", okey, pos, fmt.Sprintf("%s no longer follows the template of its siblings (%.0f%% of its lines in common with %s): restructured, not compared", m.fi.Obj.Name(), 100*lineSimilarity(m.text, ref.text), ref.fi.Obj.Name()))
+				continue
+			}
 			rc.S.Viol("K1op", okey, pos, fmt.Sprintf("%s differs from its sibling %s after erasing the operation name: %s", m.fi.Obj.Name(), ref.fi.Obj.Name(), d)).Sig = d
 		}
 	}
@@ -203,4 +211,33 @@ func eraseInStrings(txt, op string) string {
 	}
 	b.WriteString(txt[start:])
 	return b.String()
+}
+
+// lineSimilarity: 2*LCS/(|a|+|b|) over the trimmed lines of two canonical texts.
+func lineSimilarity(a, b string) float64 {
+	la, lb := strings.Split(strings.TrimSpace(a), "\n"), strings.Split(strings.TrimSpace(b), "\n")
+	for i := range la {
+		la[i] = strings.TrimSpace(la[i])
+	}
+	for i := range lb {
+		lb[i] = strings.TrimSpace(lb[i])
+	}
+	prev := make([]int, len(lb)+1)
+	for i := 1; i <= len(la); i++ {
+		cur := make([]int, len(lb)+1)
+		for j := 1; j <= len(lb); j++ {
+			if la[i-1] == lb[j-1] {
+				cur[j] = prev[j-1] + 1
+			} else if prev[j] >= cur[j-1] {
+				cur[j] = prev[j]
+			} else {
+				cur[j] = cur[j-1]
+			}
+		}
+		prev = cur
+	}
+	if len(la)+len(lb) == 0 {
+		return 1
+	}
+	return 2 * float64(prev[len(lb)]) / float64(len(la)+len(lb))
 }
